@@ -40,20 +40,21 @@ Proof. exact assignable_total. Qed.
 (* ------------------------------------------------------------------ evolution decodes *)
 (* FINAL / APPENDABLE, XCDR1 and XCDR2, both byte orders: whenever the reader type is declared
    assignable from the writer type (members appended by the writer OR by the reader), every
-   well-typed writer sample decodes into its projection on the reader type *)
+   well-typed writer sample (whose encoding is shorter than 4 GiB, the DHEADER range) decodes
+   into its projection on the reader type *)
 Theorem C39_evolution_decodes_appendable : forall V E tc t1 t2 xv,
   flat_desc t1 = true -> flat_desc t2 = true ->
   ad_ext t2 <> Mutable ->
   struct_assignable tc (cto_of t1) (cto_of t2) = Ok true ->
   wt (ty_of t2) (VData xv) = true ->
-  exists bs d, encode V E (ty_of t2) (VData xv) = Ok bs /\
-               decode (ty_of t1) bs = Ok (VData d) /\ projects t1 xv d = true.
+  exists bs, encode V E (ty_of t2) (VData xv) = Ok bs /\
+    (blen bs <= u32_max ->
+     exists d, decode (ty_of t1) bs = Ok (VData d) /\ projects t1 xv d = true).
 Proof. exact evolution_prefix. Qed.
 
-(* MUTABLE, XCDR2, both byte orders: members added, removed, reordered *)
+(* MUTABLE, XCDR2, both byte orders: members added, removed, reordered; any 28-bit member ids *)
 Theorem C39_evolution_decodes_mutable : forall E tc t1 t2 xv,
   flat_desc t1 = true -> flat_desc t2 = true -> ad_ext t2 = Mutable ->
-  ids_u16 t1 = true -> ids_u16 t2 = true ->
   struct_assignable tc (cto_of t1) (cto_of t2) = Ok true ->
   wt (ty_of t2) (VData xv) = true -> small_dyn xv = true ->
   exists bs d, encode V2 E (ty_of t2) (VData xv) = Ok bs /\
@@ -126,21 +127,17 @@ Theorem C39_refuted_nested_unchecked :
   C39_known (mkC39 (Ev V2 LE tce_default w2_t1 w2_t2 (VData w2_x)) (OAs (Ok true))) = 2%N.
 Proof. exact witness_nested_unchecked. Qed.
 
-(* 3: the DHEADER of a nested appendable structure is ignored by the reader *)
-Theorem C39_refuted_nested_dheader :
-  refuted V2 w3_t1 w3_t2 w3_x /\
-  decode (ty_of w3_t1) [0;7;0;0; 8;0;0;0; 5;0;0;0; 6;0;0;0; 77;0;0;0]
-    = Ok (VData [(0, VData [(0, VP KI32 5)]); (1, VP KI32 6)]) /\
-  C39_known (mkC39 (Ev V2 LE tce_default w3_t1 w3_t2 (VData w3_x)) (OAs (Ok true))) = 3%N.
-Proof. exact witness_nested_dheader. Qed.
-
-(* 4: member ids >= 65536 are confused by the XCDR2 parameter search (outside `ids_u16`) *)
-Theorem C39_refuted_member_id_u16 :
+(* former findings 3 (nested appendable DHEADER ignored, e71c8f0) and 4 (member ids compared as
+   u16, 1abc6cd) are repaired in /repo: the regression inputs decode into the projection *)
+Theorem C39_repaired_decoding :
+  (exists bs, encode V2 LE (ty_of w3_t2) (VData w3_x) = Ok bs /\
+              decode (ty_of w3_t1) bs = Ok (VData w3_y) /\ projects_n w3_t1 w3_x w3_y = true) /\
+  (exists bs, encode V2 LE (ty_of w3_t1) (VData w3_y) = Ok bs /\
+              decode (ty_of w3_t2) bs = Ok (VData w3_y) /\ projects_n w3_t2 w3_y w3_y = true) /\
   struct_assignable tce_default (cto_of w4_t1) (cto_of w4_t2) = Ok true /\
-  flat_desc w4_t1 = true /\ flat_desc w4_t2 = true /\ ids_u16 w4_t1 = false /\
-  refuted V2 w4_t1 w4_t2 w4_x /\
-  C39_known (mkC39 (Ev V2 LE tce_default w4_t1 w4_t2 (VData w4_x)) (OAs (Ok true))) = 4%N.
-Proof. exact witness_member_id_u16. Qed.
+  (exists bs, encode V2 LE (ty_of w4_t2) (VData w4_x) = Ok bs /\
+              decode (ty_of w4_t1) bs = Ok (VData w4_x) /\ projects w4_t1 w4_x w4_x = true).
+Proof. exact repaired_decoding. Qed.
 
 (* former finding 5 (todo!() on TkNone / maps / SCC / extended identifiers) is repaired in /repo
    (abb552f): such member types are rejected; T := T still holds through the equality shortcut,
@@ -154,12 +151,19 @@ Theorem C39_unsupported_identifier_rejected :
   struct_rules tce_default (mkST 1 1 [mkSM 0 1 0 TkNone]) (mkST 1 1 [mkSM 0 1 0 TkNone]) = Ok false.
 Proof. exact unsupported_rejected. Qed.
 
-(* 6: a member optional on one side only (FINAL / APPENDABLE) *)
-Theorem C39_refuted_optional_mismatch :
-  struct_assignable tce_default (cto_of w6_t1) (cto_of w6_t2) = Ok true /\
-  refuted V2 w6_t1 w6_t2 w6_x /\
-  C39_known (mkC39 (Ev V2 LE tce_default w6_t1 w6_t2 (VData w6_x)) (OAs (Ok true))) = 6%N.
-Proof. exact witness_optional_mismatch. Qed.
+(* former finding 6 (05c4a3c): a member optional on one side only is rejected for FINAL /
+   APPENDABLE types *)
+Theorem C39_optional_mismatch_rejected :
+  struct_assignable tce_default (cto_of w6_t1) (cto_of w6_t2) = Ok false /\
+  struct_assignable tce_default (cto_of w6_t2) (cto_of w6_t1) = Ok false /\
+  struct_assignable tce_default (cto_of (mkAD Mutable 1 (ad_members w6_t1)))
+                                (cto_of (mkAD Mutable 1 (ad_members w6_t2))) = Ok true.
+Proof. exact optional_mismatch_rejected. Qed.
+
+(* the oracle's nested projection is `projects` on the family *)
+Theorem C39_oracle_projection_flat : forall t1 xv d,
+  flat_desc t1 = true -> projects_n t1 xv d = projects t1 xv d.
+Proof. exact projects_n_flat. Qed.
 
 (* 7: compile-time (derive) reader types: the decoded DynamicData is the projection, but the
    typed sample built from it is None when the reader type has a new plain member *)
@@ -197,7 +201,7 @@ Example C39_nonvacuous :
   wt (ty_of ex_a2) (VData ex_ax) = true /\
   (exists bs, encode V2 LE (ty_of ex_a2) (VData ex_ax) = Ok bs /\
               decode (ty_of ex_a1) bs = Ok (VData [(0, VP KU8 7); (1, VStr [104; 105])])) /\
-  flat_desc ex_m1 = true /\ flat_desc ex_m2 = true /\ ids_u16 ex_m1 = true /\ ids_u16 ex_m2 = true /\
+  flat_desc ex_m1 = true /\ flat_desc ex_m2 = true /\
   struct_assignable tce_default (cto_of ex_m1) (cto_of ex_m2) = Ok true /\
   wt (ty_of ex_m2) (VData ex_mx) = true /\ small_dyn ex_mx = true /\
   (exists bs, encode V2 LE (ty_of ex_m2) (VData ex_mx) = Ok bs /\
@@ -215,10 +219,10 @@ Print Assumptions C39_legitimate_evolution_accepted.
 Print Assumptions C39_projects_meaning.
 Print Assumptions C39_refuted_int_from_hashed.
 Print Assumptions C39_refuted_nested_unchecked.
-Print Assumptions C39_refuted_nested_dheader.
-Print Assumptions C39_refuted_member_id_u16.
+Print Assumptions C39_repaired_decoding.
 Print Assumptions C39_unsupported_identifier_rejected.
-Print Assumptions C39_refuted_optional_mismatch.
+Print Assumptions C39_optional_mismatch_rejected.
+Print Assumptions C39_oracle_projection_flat.
 Print Assumptions C39_refuted_typed_sample_none.
 Print Assumptions C39_typed_sample_delivered.
 Print Assumptions C39_no_integer_widening.
